@@ -153,7 +153,7 @@ def trajectories(ctx):
         return
     for (label, desc, ops, debug, outs, log), ans in zip(metas, answers):
         kind, val, mlog = envs.decode_env(desc, ans)
-        if kind != 'ok' or val != outs or impl.norm_log(mlog) != impl.norm_log(log):
+        if kind != 'ok' or not core.same(val, outs) or impl.norm_log(mlog) != impl.norm_log(log):
             first = next((i for i, (a, b) in enumerate(zip(val or [], outs)) if a != b), None) if kind == 'ok' else None
             ctx.disagreement('trajectory: implementation and model differ',
                              {'env': label, 'ops': ops[:2 * (first or 0) + 4], 'debug': debug, 'first_difference': first,
@@ -253,7 +253,7 @@ def functional_steps(ctx):
             v = comp.read_rv(R)
             return (s2, comp.eval_rv(desc['reward'], v), bool(R.z()))
         kind, val, mlog = R.outcome(dec)
-        if (kind, val) != out or impl.norm_log(mlog) != impl.norm_log(log):
+        if not core.same((kind, val), out) or impl.norm_log(mlog) != impl.norm_log(log):
             ctx.disagreement('functional_step: implementation and model differ',
                              {'env': desc, 'state': gen.show_state(cs), 'action': a, 'debug': debug, 'impl': str(out)[:500], 'model': str((kind, val))[:500]})
 
